@@ -346,12 +346,31 @@ func (s *MuxSim) Step(i int, op *MuxOp) *CallRec {
 		start := len(s.Calls)
 		base := 1000000 + i*100000
 		for k := 0; k < op.N; k++ {
-			h := base + 3*k
+			h := base + 6*k
 			pre := len(s.Out.Violations)
 			a := s.Step(h, &MuxOp{Op: "add", H: -1, PID: 0, Type: op.Type})
-			t := s.Step(h+1, &MuxOp{Op: "tables", H: -1})
-			if k >= op.Keep {
-				s.Step(h+2, &MuxOp{Op: "remove", H: h})
+			var t *CallRec
+			if op.PID != 0 {
+				// empty-Muxer variant: companion stream (for the PCR PID) added after the automatic
+				// one and removed with it; if its PID happens to be taken, its neighbour is tried
+				x := op.PID
+				c := s.Step(h+1, &MuxOp{Op: "add", H: -1, PID: x, Type: 0x1b})
+				if c.Err != nil {
+					x ^= 1
+					c = s.Step(h+1, &MuxOp{Op: "add", H: -1, PID: x, Type: 0x1b})
+				}
+				s.Step(h+2, &MuxOp{Op: "setpcr", H: h + 1, PID: x})
+				t = s.Step(h+3, &MuxOp{Op: "tables", H: -1})
+				s.Step(h+4, &MuxOp{Op: "remove", H: h})
+				s.Step(h+5, &MuxOp{Op: "remove", H: h + 1})
+				if c.Err != nil {
+					t.Err = c.Err
+				}
+			} else {
+				t = s.Step(h+1, &MuxOp{Op: "tables", H: -1})
+				if k >= op.Keep {
+					s.Step(h+2, &MuxOp{Op: "remove", H: h})
+				}
 			}
 			// the records of a long churn are not kept (memory); its violations are
 			if len(s.Calls)-start > 64 {
@@ -662,12 +681,19 @@ func (s *MuxSim) stepData(i int, op *MuxOp, rec *CallRec) {
 	// calls since the last emission": the property does not say, so both readings are accepted
 	// (sinceLo = calls that certainly count, sinceHi = calls that possibly count).
 	invalidArg := !afFits && rec.Err != nil
+	// A unit without payload bytes: whether it is written at all (nothing, a header-only PES,
+	// an error) and whether it counts towards the period is not fixed by the properties; what is
+	// written must obey the packet rules like everything else.
+	empty := op.Len == 0
+	if empty {
+		s.Out.Probe("data-empty-payload")
+	}
 	s.sinceHi++
-	if !invalidArg {
+	if !invalidArg && !empty {
 		s.sinceLo++
 	}
 	force := op.AF != nil && op.AF.RAI && pid == s.pcr
-	must := !invalidArg && (force || s.sinceLo >= s.Period)
+	must := !invalidArg && !empty && (force || s.sinceLo >= s.Period)
 	may := force || s.sinceHi >= s.Period
 	if force {
 		s.Out.Probe("rai-forced")
@@ -683,7 +709,7 @@ func (s *MuxSim) stepData(i int, op *MuxOp, rec *CallRec) {
 	if rec.Err != nil {
 		// Rejected: tables due but impossible, or an adaptation field no packet can hold.
 		s.Out.Probe("data-rejected")
-		expected := (may && ok != 1) || !afFits
+		expected := (may && ok != 1) || !afFits || empty
 		if !expected {
 			s.v("C17", "data-rejected", errClass(rec.Err), "call %d: WriteData(PID %#x, %d bytes) failed with %v; tables due=%v possible=%d", i, pid, op.Len, rec.Err, must, ok)
 		}
@@ -710,7 +736,9 @@ func (s *MuxSim) stepData(i int, op *MuxOp, rec *CallRec) {
 	s.snapshotModel(rec)
 	es := rec.Pkts[used:]
 	if len(es) == 0 {
-		s.v("C04", "no-output", "", "call %d: WriteData(%d bytes) succeeded without writing any elementary-stream packet", i, op.Len)
+		if !empty {
+			s.v("C04", "no-output", "", "call %d: WriteData(%d bytes) succeeded without writing any elementary-stream packet", i, op.Len)
+		}
 		return
 	}
 	started := false
@@ -741,7 +769,7 @@ func (s *MuxSim) stepData(i int, op *MuxOp, rec *CallRec) {
 			s.v("C04", "pusi-placement", "later", "call %d: packet %d of the unit carries payload_unit_start_indicator again", i, k)
 		}
 	}
-	if total < op.Len+6 {
+	if total < op.Len+6 && (!empty || started) {
 		s.v("C04", "payload-short", "", "call %d: %d payload bytes on the wire for a %d-byte PES payload plus header", i, total, op.Len)
 	}
 	if len(es) > 16 {
